@@ -32,11 +32,11 @@ def record(histories, flavour="plain", nproc=None):
 
 def _strip(tr):
     """What TLC sees: id + events without harness-only fields."""
-    keep = ("call", "obj", "cfg", "k", "ret", "ns", "t", "pnum", "recT", "recN", "dataok")
+    keep = ("call", "obj", "cfg", "k", "ret", "ns", "t", "pnum", "recT", "recN", "dataok", "outok")
     return {"id": tr["id"], "ev": [{k: e[k] for k in keep if k in e} for e in tr["ev"]]}
 
 
-def validate(traces, cfg="Trace_Engine", shards=None, timeout=1800, _depth=0):
+def validate(traces, cfg="Trace_Engine", shards=None, timeout=1800, _depth=0, module="Trace_Engine"):
     """Returns (accepted_ids, tlc_results). Traces whose id is not accepted are rejected."""
     if not traces:
         return set(), []
@@ -53,7 +53,7 @@ def validate(traces, cfg="Trace_Engine", shards=None, timeout=1800, _depth=0):
         files.append(p)
     ctx = mp.get_context("fork")
     with ctx.Pool(len(files)) as pool:
-        res = pool.starmap(_tlc_one, [(cfg, p, timeout) for p in files])
+        res = pool.starmap(_tlc_one, [(cfg, p, timeout, module) for p in files])
     accepted = set()
     for r in res:
         for m in re.finditer(r'<<"ACCEPTED", (?:"([^"]*)"|(-?\d+))>>', r.out):
@@ -67,7 +67,7 @@ def validate(traces, cfg="Trace_Engine", shards=None, timeout=1800, _depth=0):
     if broken and _depth == 0:
         redo = [t for s in broken for t in traces[s::shards] if t["id"] not in accepted]
         with ctx.Pool(min(util.NCPU, max(1, len(redo)))) as pool:
-            singles = pool.starmap(_single, [(cfg, t, timeout) for t in redo])
+            singles = pool.starmap(_single, [(cfg, t, timeout, module) for t in redo])
         for t, (ok, r1) in zip(redo, singles):
             if ok:
                 accepted.add(t["id"])
@@ -78,18 +78,31 @@ def validate(traces, cfg="Trace_Engine", shards=None, timeout=1800, _depth=0):
     return accepted, res
 
 
-def _single(cfg, trace, timeout):
+def _single(cfg, trace, timeout, module="Trace_Engine"):
     d = util.subdir("traces")
     p = os.path.join(d, "single_%d_%s.json" % (os.getpid(), re.sub(r"\W", "_", str(trace["id"]))[:40]))
     with open(p, "w") as f:
         json.dump([_strip(trace)], f)
-    r = tlc.run("Trace_Engine", cfg=cfg, workers=1, env={"TRACE_FILE": p}, timeout=min(timeout, 300), heap="2g")
+    r = tlc.run(module, cfg=cfg, workers=1, env={"TRACE_FILE": p}, timeout=min(timeout, 300), heap="2g")
     os.remove(p)
     return ('"ACCEPTED"' in r.out), r
 
 
-def _tlc_one(cfg, path, timeout):
-    return tlc.run("Trace_Engine", cfg=cfg, workers=1, env={"TRACE_FILE": path}, timeout=timeout, heap="3g")
+def accepted_prefix(trace, cfg, module):
+    """Length of the longest prefix of a rejected trace the trace specification accepts (bisection, one TLC run per probe)."""
+    lo, hi = 0, len(trace["ev"])
+    while lo < hi:
+        mid = (lo + hi + 1) // 2
+        ok, _ = _single(cfg, dict(trace, ev=trace["ev"][:mid]), 300, module)
+        if ok:
+            lo = mid
+        else:
+            hi = mid - 1
+    return lo
+
+
+def _tlc_one(cfg, path, timeout, module="Trace_Engine"):
+    return tlc.run(module, cfg=cfg, workers=1, env={"TRACE_FILE": path}, timeout=timeout, heap="3g")
 
 
 def diagnose(trace, cfg="Trace_Engine"):
